@@ -35,6 +35,16 @@ func (r *c19run) exec(op SOp) {
 			s.Send(who, s.Text(who, 20, 0))
 		}
 		s.Exec(SOp{K: "flush"})
+	case "forgealt":
+		// a run of forgeries whose key ids walk over the acceptable pairs (current/previous on either side):
+		// key ids travel in the clear, so anybody can name them; the MAC cannot be forged
+		for i := 0; i <= 3+op.I%4; i++ {
+			r.forge(who, -(i & 1), -((i >> 1) & 1), 1+op.X+i)
+		}
+	case "errreq":
+		// an unauthenticated "?OTR Error" asks for the last message again at the next key exchange
+		w.Receive(who, []byte("?OTR Error: could not read that"))
+		s.Exec(SOp{K: "flush"})
 	case "forge", "garbage":
 		// unauthenticated input for `who`: a copy of the peer's latest data message with other key ids / counter, or plain garbage
 		var in []byte
@@ -48,9 +58,9 @@ func (r *c19run) exec(op SOp) {
 					body := m.Hdr.Len
 					d := m.Data
 					f := d.Fields["senderkeyid"]
-					copy(raw[body+f[0]:], ref.PutU32(nil, d.SenderKeyID+uint32(op.L%5)))
+					copy(raw[body+f[0]:], ref.PutU32(nil, uint32(int(d.SenderKeyID)+op.L%5-2)))
 					f = d.Fields["recipkeyid"]
-					copy(raw[body+f[0]:], ref.PutU32(nil, d.RecipKeyID+uint32(op.F%5)))
+					copy(raw[body+f[0]:], ref.PutU32(nil, uint32(int(d.RecipKeyID)+op.F%5-2)))
 					f = d.Fields["ctr"]
 					copy(raw[body+f[0]:], ref.PutU64(nil, d.Ctr+uint64(1+op.X)))
 					in = ref.Armor(raw)
@@ -101,6 +111,29 @@ func (r *c19run) exec(op SOp) {
 	}
 }
 
+// forge presents to `who` a copy of the peer's latest data message with its key ids moved by ds/dr and its counter raised.
+func (r *c19run) forge(who, ds, dr, dctr int) {
+	s, w := r.s, r.s.W
+	for i := len(s.Seen) - 1; i >= 0; i-- {
+		m := s.Seen[i]
+		if m.From != who && m.Data != nil && m.Raw != nil {
+			raw := append([]byte{}, m.Raw...)
+			body := m.Hdr.Len
+			d := m.Data
+			f := d.Fields["senderkeyid"]
+			copy(raw[body+f[0]:], ref.PutU32(nil, uint32(int(d.SenderKeyID)+ds)))
+			f = d.Fields["recipkeyid"]
+			copy(raw[body+f[0]:], ref.PutU32(nil, uint32(int(d.RecipKeyID)+dr)))
+			f = d.Fields["ctr"]
+			copy(raw[body+f[0]:], ref.PutU64(nil, d.Ctr+uint64(dctr)))
+			before := len(w.Q[who])
+			w.Receive(who, ref.Armor(raw))
+			w.Q[who] = w.Q[who][:before] // error replies are not delivered
+			return
+		}
+	}
+}
+
 func runC19(sc *CycleScript) *sim.Outcome {
 	o := &sim.Outcome{}
 	cfg := sc.Cfg
@@ -120,6 +153,8 @@ func runC19(sc *CycleScript) *sim.Outcome {
 		o.Discard = true
 		return o
 	}
+	// both have said something: there is a "most recent message" on either side
+	s.Exec(SOp{K: "pp", W: 0, I: 0, L: 20})
 	n := sc.N
 	if n < 2 {
 		n = 2
@@ -134,7 +169,7 @@ func runC19(sc *CycleScript) *sim.Outcome {
 			switch op.K {
 			case "pp", "burst":
 				accepted = true
-			case "forge", "garbage", "rejake", "replayflood":
+			case "forge", "forgealt", "garbage", "rejake", "replayflood", "errreq":
 				rejected = true
 			}
 		}
@@ -200,7 +235,7 @@ func init() { reg("C19cycles", runC19); reg("C19patterns", runC19) }
 
 func TestProp_C19_Cycles(t *testing.T) {
 	defer sim.MarkCompleted("C19cycles", false)
-	kinds := []string{"pp", "pp", "pp", "burst", "burst", "forge", "forge", "garbage", "rejake", "rekey", "smprun", "age", "replayflood"}
+	kinds := []string{"pp", "pp", "pp", "burst", "burst", "forge", "forge", "forgealt", "forgealt", "errreq", "garbage", "rejake", "rekey", "rekey", "smprun", "age", "replayflood"}
 	maxN := 10
 	if sim.Thorough() {
 		maxN = 32
@@ -239,6 +274,16 @@ func TestProp_C19_Patterns(t *testing.T) {
 		{{K: "smprun", W: 0}, {K: "pp", W: 0}},
 		{{K: "replayflood", W: 0}, {K: "replayflood", W: 1}, {K: "pp", W: 0}},
 		{{K: "age", W: 0}, {K: "age", W: 1}, {K: "pp", W: 0}},
+		// nobody sends: only unauthenticated input arrives
+		{{K: "forgealt", W: 0, I: 3}},
+		{{K: "forgealt", W: 1, I: 1}, {K: "forge", W: 1, L: 2, F: 1, X: 3}},
+		{{K: "forgealt", W: 0}, {K: "burst", W: 0, I: 1}},
+		{{K: "garbage", W: 0}, {K: "replayflood", W: 0}},
+		// the user stays silent after one message while the peer keeps asking for it again and re-keying
+		{{K: "errreq", W: 0}, {K: "age", W: 0}, {K: "age", W: 1}, {K: "rekey", W: 1}},
+		{{K: "errreq", W: 1}, {K: "age", W: 0}, {K: "age", W: 1}, {K: "rekey", W: 1}},
+		{{K: "errreq", W: 0}, {K: "age", W: 0}, {K: "age", W: 1}, {K: "rekey", W: 0}},
+		{{K: "errreq", W: 0}, {K: "errreq", W: 1}, {K: "age", W: 0}, {K: "age", W: 1}, {K: "rekey", W: 0}},
 	}
 	idx := 0
 	for _, v := range []int{3, 2} {
